@@ -4,7 +4,7 @@
 From Coq Require Import List ZArith NArith Extraction ExtrOcamlBasic.
 From Coq Require Import Init.Byte Strings.Byte.
 From LMBase Require Import Res IEEE.
-From LMTransfac Require Import Bytes Stream Nom Dec2F32 TransfacParse TransfacReader TransfacPrint Checkers.
+From LMTransfac Require Import Bytes Stream Nom Dec2F32 TransfacParse TransfacReader TransfacPrint Checkers TransfacPoll TransfacFault GenReader TransfacFreq.
 
 Definition byte_of_N : N -> option byte := Byte.of_N.
 Definition byte_to_N : byte -> N := Byte.to_N.
@@ -16,8 +16,20 @@ Definition model_run (al : alpha) (s : stream) : list obs :=
 Definition model_run_streaming (al : alpha) (s : stream) : list obs :=
   observe_run (run_reader (parse_record_streaming al) s).
 
+(* round 3: consumers that keep polling after the first error / end of input ... *)
+Definition model_run_post (al : alpha) (post : nat) (s : stream) : list obs :=
+  observe_run (run_reader_post (parse_record_fixed al) post s).
+(* ... and the reader over a stream with scripted I/O faults, as a trace ([fixed] = the repair
+   proposed for finding F-T1) *)
+Definition model_trace_ev (al : alpha) (fixed : bool) (post : nat) (s : estream) : list obs :=
+  observe_trace (trace_run_e (parse_record_fixed al) fixed post s).
+
+(* the reader as translate/transfac_reader.py finds it in the source (GenReader.v) *)
+Definition model_trace_cur (al : alpha) (post : nat) (s : estream) : list obs :=
+  model_trace_ev al reader_last_is_buffer_len post s.
+
 Extraction Language OCaml.
 Extraction "transfac_model.ml"
-  byte_of_N byte_to_N model_run model_run_streaming
+  byte_of_N byte_to_N model_run model_run_streaming model_run_post model_trace_ev model_trace_cur check_c15p check_c14p to_freq_bits
   check_c14 check_c15 first_diff obs_eqb observe_record
   print_file expected_record wf_file f32_bits_of_token.
